@@ -429,8 +429,13 @@ fn get_bar_region<H: Hal, T, C: ConfigurationAccess>(
     device_function: DeviceFunction,
     struct_info: &VirtioCapabilityInfo,
 ) -> Result<NonNull<T>, VirtioPciError> {
+    // Look the BAR up among all the BARs of the function rather than probing its register alone,
+    // so that the upper half of a 64-bit BAR is never mistaken for a BAR of its own.
     let bar_info = root
-        .bar_info(device_function, struct_info.bar)?
+        .bars(device_function)?
+        .get(usize::from(struct_info.bar))
+        .cloned()
+        .flatten()
         .ok_or(VirtioPciError::BarNotAllocated(struct_info.bar))?;
     let (bar_address, bar_size) = bar_info
         .memory_address_size()
